@@ -816,8 +816,9 @@ def patterns(m):
 
 def gen_cases(tier, rng):
     """Quick: 3..5 ensembles complete (all loadable reach vectors; 0/1 weights and the integer-weight
-    kinds; 4 workers on 5 ensembles and the two-worker steps on 5 ensembles with 0/1 weights only),
-    6 ensembles with 0/1 weights (start-up with 3..5 workers on a seeded sample of the reach vectors).
+    kinds, 5 ensembles without the kind "mix"; 4 workers on 5 ensembles and the two-worker steps on 5
+    ensembles with 0/1 weights only), 6 ensembles with 0/1 weights (one-worker steps complete; start-up
+    with 2..5 workers on a seeded sample of 60/6/3/1 of the 120 reach vectors).
     Thorough: 6 ensembles complete for 0/1 weights, more kinds, both jobs drain on 5 ensembles."""
     cases = []
     thorough = tier != "quick"
@@ -828,6 +829,8 @@ def gen_cases(tier, rng):
     for n_ens in (3, 4, 5):
         m = n_ens - 1
         for kind in KINDS:
+            if n_ens == 5 and kind == "mix" and not thorough:
+                continue
             for reach in patterns(m):
                 for workers in range(2, n_ens):
                     if n_ens == 5 and workers == 4 and kind != "01" and not thorough:
@@ -842,9 +845,8 @@ def gen_cases(tier, rng):
     n_ens, m = 6, 5
     pats = patterns(m)
     for reach in pats:
-        add(n_ens, 2, "01", reach, 0)
         add(n_ens, 1, "01", reach, 1)
-    for workers, k in ((3, 8), (4, 4), (5, 2)):
+    for workers, k in ((2, 60), (3, 6), (4, 3), (5, 1)):
         sel = pats if thorough else rng.sample(pats, k)
         for reach in sel:
             add(n_ens, workers, "01", reach, 0)
